@@ -1,5 +1,6 @@
 import Req.Driver.Proto
 import Req.Client.Decode
+import Req.Client.DecodeSettings
 /-!
 Driver lanes of C15.
 
@@ -12,6 +13,16 @@ the `<tbl>` argument: `in=out;in=out…`, hex, sent by the harness from x/text).
   table `content=decid/name;…` (`-` = empty), `segs`/`term`/`lwt` = the scripted source, `bufs` =
   caller buffer sizes of the first reads, then `tail`-sized buffers until the stream ends.
   Answer: `<hex of everything returned> <eof|err|panic|none> <raw|hdr|auto:<detected><hasDecoder><peek>>`.
+* `c15readp <prog> <use> <ae> <ct> …as c15read…` — the same, with the configuration COMPUTED by the
+  model from a program of setter calls / clonings over a family of clients (`Req.Decode.runFam`)
+  and the index of the member that performs the request.  `prog` = `;`-joined operations (`-` = none):
+  `D<i>` Disable, `E<i>` Enable, `A<i>` SetAutoDecodeAllContentType, `N<i>` SetAutoDecodeContentTypeFunc(nil),
+  `F<i>:<0|1>` a custom function (its verdict on this content type), `L<i>:<hexlist>`
+  SetAutoDecodeContentType(list), `C<i>` Clone of member `i`.
+* `c15cfg <prog> <use> <grid>` — the selection alone, over a grid of responses: `grid` =
+  `,`-joined `<content-type hex>/<ae hex>/<mp>/<lk>` entries; in `prog` a custom function may also be named
+  (`G<i>:<k>`, the harness' three fixed functions: suffix `+verif`, even length, contains `charset`).
+  Answer: `,`-joined `raw|hdr|auto` (what `autoDecodeResponseBody` installs), one per grid entry.
 * `c15legacy …same… <dirty>` — the pinned tree's `peekRead`; buffers are pre-filled with the
   `dirty` pattern repeated.
 * `c15drain <peek|nil> <decid> <tbl> <segs> <term> <lwt> <bufs> <tail>` — `Read` from a state
@@ -153,6 +164,71 @@ def parseReadArgs : List String → Option ReadArgs
            bufs := bufs, tail := tail, fuel := fuelFor segs tbl }
   | _ => none
 
+/-- `D0`, `F2:1`, `L1:68746d6c,786d6c`, `C0` … -/
+def parseFamOp (t : String) : Option FamOp :=
+  match t.toList with
+  | [] => none
+  | k :: rest =>
+    let (digits, tailc) := rest.span Char.isDigit
+    let arg : Option String := match tailc with
+      | [] => some ""
+      | ':' :: a => some (String.ofList a)
+      | _ => none
+    match (String.ofList digits).toNat?, arg with
+    | some i, some a =>
+      if k == 'D' && a == "" then some (.on i .disable)
+      else if k == 'E' && a == "" then some (.on i .enable)
+      else if k == 'A' && a == "" then some (.on i .setAll)
+      else if k == 'N' && a == "" then some (.on i (.setFunc none))
+      else if k == 'C' && a == "" then some (.clone i)
+      else if k == 'F' && a == "0" then some (.on i (.setFunc (some fun _ => false)))
+      else if k == 'F' && a == "1" then some (.on i (.setFunc (some fun _ => true)))
+      else if k == 'G' && a == "0" then some (.on i (.setFunc (some fun ct => (ofStr "+verif").reverse.isPrefixOf ct.reverse)))
+      else if k == 'G' && a == "1" then some (.on i (.setFunc (some fun ct => ct.length % 2 == 0)))
+      else if k == 'G' && a == "2" then some (.on i (.setFunc (some fun ct => containsSub ct (ofStr "charset"))))
+      else if k == 'L' && tailc != [] then (decodeList a).map fun l => .on i (.setList l)
+      else none
+    | _, _ => none
+
+def parseProg (s : String) : Option (List FamOp) :=
+  if s == "-" then some [] else (s.splitOn ";").mapM parseFamOp
+
+def laneReadP : List String → String
+  | prog :: use :: rest =>
+    match parseProg prog, use.toNat?, parseReadArgs ("0" :: "default" :: rest) with
+    | some ops, some j, some a =>
+      match (runFam ops)[j]? with
+      | some cfg =>
+        showRR (respReads cfg a.ae a.ct a.mp (fun _ => a.lk) a.find a.src
+          (a.bufs ++ List.replicate a.fuel a.tail))
+      | none => "bad-op"
+    | _, _, _ => "bad-op"
+  | _ => "bad-op"
+
+def showSel : Sel Bytes → String
+  | .untouched => "raw"
+  | .header _ => "hdr"
+  | .peek => "auto"
+
+def laneCfg : List String → String
+  | [prog, use, grid] =>
+    let r : Option String := do
+      let ops ← parseProg prog
+      let j ← use.toNat?
+      let cfg ← (runFam ops)[j]?
+      let cells ← (grid.splitOn ",").mapM fun e =>
+        match e.splitOn "/" with
+        | [ct, ae, mp, lk] => do
+          let ct ← decodeHex ct
+          let ae ← decodeHex ae
+          let mp ← parseMp mp
+          let lk ← decOf [] lk
+          pure (showSel (select cfg ae ct mp fun _ => lk))
+        | _ => none
+      pure (",".intercalate cells)
+    r.getD "bad-op"
+  | _ => "bad-op"
+
 def laneRead (args : List String) : String :=
   match parseReadArgs args with
   | some a =>
@@ -218,6 +294,8 @@ def laneFind : List String → String
 
 def lanes : List (String × (List String → String)) := [
   ("c15read", laneRead),
+  ("c15readp", laneReadP),
+  ("c15cfg", laneCfg),
   ("c15legacy", laneLegacy),
   ("c15drain", laneDrain),
   ("c15dec", laneDec),
